@@ -199,6 +199,27 @@ int AsmContext::set_cpu(const char *name)
   return -1;
 }
 
+#ifdef NAKEN_ASM_VERIF
+// Verification hook: trace what each statement handler reports and what
+// assemble() returns, so that the driver model can be checked against it.
+#define NV_TRACE(...) if (getenv("NV_TRACE") != NULL) { fprintf(stderr, __VA_ARGS__); }
+static int nv_depth = 0;
+
+int AsmContext::assemble()
+{
+  nv_depth++;
+  NV_TRACE("NVT enter %d pass=%d\n", nv_depth, pass);
+  int nv_ret = assemble_nv_impl();
+  NV_TRACE("NVT leave %d ret=%d ec=%d e=%d\n", nv_depth, nv_ret, error_count, error ? 1 : 0);
+  nv_depth--;
+  return nv_ret;
+}
+
+#define assemble assemble_nv_impl
+#else
+#define NV_TRACE(...)
+#endif
+
 int AsmContext::assemble()
 {
   char token[TOKENLEN];
@@ -206,6 +227,7 @@ int AsmContext::assemble()
 
   while (true)
   {
+    NV_TRACE("NVT loop %d ec=%d\n", nv_depth, error_count);
     if (error_count > 0) { return -1; }
 
     token_type = tokens_get(this, token, TOKENLEN);
@@ -214,6 +236,7 @@ int AsmContext::assemble()
     printf("%d: <%d> %s\n", asm_context->tokens.line, token_type, token);
 #endif
 
+    if (token_type == TOKEN_EOF) { NV_TRACE("NVT eof %d\n", nv_depth); }
     if (token_type == TOKEN_EOF) { break; }
 
     if (token_type == TOKEN_EOL)
@@ -235,13 +258,16 @@ int AsmContext::assemble()
 
       if (symbols.append(token, address / bytes_per_address) == -1)
       {
+        NV_TRACE("NVT label %d ret=-1\n", nv_depth);
         return -1;
       }
+      NV_TRACE("NVT label %d ret=0\n", nv_depth);
     }
       else
     if (token_type == TOKEN_POUND || IS_TOKEN(token,'.'))
     {
       int n = parse_directives(this);
+      NV_TRACE("NVT dir %d ret=%d\n", nv_depth, n);
 
       // If n is 3, then this is ending a .repeat directive.
       if (n == 3) { return 3; }
@@ -256,6 +282,7 @@ int AsmContext::assemble()
     if (token_type == TOKEN_STRING)
     {
       int ret = directive(token);
+      NV_TRACE("NVT word %d ret=%d\n", nv_depth, ret);
 
       if (ret == 2) { break; }
       if (ret == -1) { return -1; }
@@ -300,12 +327,14 @@ int AsmContext::assemble()
           tokens_unget_char(this, ch);
           macros_strip(token2);
           macros_append(this, token, token2, 0);
+          NV_TRACE("NVT equ %d\n", nv_depth);
         }
           else
         {
           tokens_push(this, token2, token_type2);
 
           ret = parse_instruction(this, token);
+          NV_TRACE("NVT instr %d ret=%d\n", nv_depth, ret);
 
           if (list != nullptr && write_list_file == true)
           {
@@ -332,6 +361,7 @@ int AsmContext::assemble()
       else
     {
       print_error_unexp(this, token);
+      NV_TRACE("NVT other %d ret=-1\n", nv_depth);
       return -1;
     }
   }
@@ -340,6 +370,10 @@ int AsmContext::assemble()
 
   return 0;
 }
+
+#ifdef NAKEN_ASM_VERIF
+#undef assemble
+#endif
 
 int AsmContext::directive(char *token)
 {
